@@ -560,6 +560,10 @@ def check_runstate(ctx, R="C14.runstate"):
             )
 
 
+import builtins as _builtins
+
+_BUILTIN_NAMES = set(dir(_builtins))
+
 # calls allowed between marking a scenario as running and registering it for cleanup, without protection (reason each)
 UNPROTECTED_START_CALLS = {
     "toMonitor": "builds an rv_ltl monitor object from an already compiled proposition; evaluates no user code",
@@ -593,6 +597,8 @@ def check_started(ctx, R="C14.started"):
         name = c.func.attr if isinstance(c.func, ast.Attribute) else c.func.id if isinstance(c.func, ast.Name) else unparse(c.func)
         if any(isinstance(a, ast.Assert) for a in ancestors(c)):
             continue
+        if isinstance(c.func, ast.Name) and c.func.id in _BUILTIN_NAMES:
+            continue  # round / len / tuple ...: no user code behind them
         n += 1
         if name in UNPROTECTED_START_CALLS:
             ctx.ok(R, c, f"`{norm_text(c, 40)}` before registration: {UNPROTECTED_START_CALLS[name]}")
